@@ -358,6 +358,10 @@ class Connection(object):
             try:
                 tx_size = sock.send(data)
                 self._logger.debug('Sent %d octets', tx_size)
+            except (BlockingIOError, ssl.SSLWantWriteError) as err:
+                # Socket send buffer is full, keep the data and try later
+                self._logger.debug('Socket not writable: %s', err)
+                return True
             except socket.error as err:
                 self._logger.error('Failed to "send" on socket: %s', err)
                 tx_size = None
